@@ -55,6 +55,8 @@ def link_models(ctx, mutate=None, tag=""):
                 ok = pred[0] == "same"
                 text = "a %s value stored in %s.%s keeps its exact value and type" % (kind, cls, field)
             props = ("C05", "C02", "C07") if kind != "int>1e308" else ("C05", "C07")
+            if field == "group_weight":
+                props = props + ("C03", "C10")
             out.append(Obl("model%s:%s.%s/%s" % (tag, cls, field, kind), fn, "model", text, status=DISCHARGED if ok else REFUTED, backend="case-analysis(pydantic-model)",
                            detail="Union%s smart_union=%s => %s" % (mem, smart, pred), props=props,
                            model={"kind": kind, "exemplars": [enc(x) for x in PM.EXEMPLARS[kind]], "prediction": list(pred)}, replay=model_replay))
